@@ -315,14 +315,20 @@ package source
 // continuation with no dependency active (so that the position it reads and moves is the main one)
 //@ inline (*MultiSource).resetChangesCache
 //@ unit (*MultiSource).ReadEntities
-//@   prop C18
+//@   prop C18 C17
 //@   ghost depsDoneG int = 0
+//@   ghost depErrG iface
+//@   ghost depFailedG bool = false
+//@   ensures [C17,C18:the-error-of-a-dependency-reaches-the-pipeline-as-it-is-so-the-max-items-and-kill-sentinels-are-still-recognised] depFailedG ==> result == depErrG
 //@   requires multiSource != nil && multiSource.Store != nil
 //@   requires typeof(since) == typeid("*source.MultiDatasetContinuation") ==> cast(since, "*source.MultiDatasetContinuation") != nil
 //@   dyncall processEntities preserves MultiDatasetContinuation.*, StringDatasetContinuation.*, map[string]*source.StringDatasetContinuation, MultiSource.*, Dependency.*, []source.Dependency
 //@   at call processDependency#1 before
 //@     assert [C18:every-declared-dependency-is-processed-in-order-against-the-continuation-of-this-read] $arg2.Dataset == multiSource.Dependencies[$i1 + 1].Dataset && $arg2.Joins == multiSource.Dependencies[$i1 + 1].Joins && $arg3 == cast(since, "*source.MultiDatasetContinuation") && $arg4 == batchSize && $arg0 == multiSource && depsDoneG == $i1 + 1
 //@     ghost depsDoneG := depsDoneG + 1
+//@   at call processDependency#1
+//@     ghost depErrG := $result
+//@     ghost depFailedG := $result != nil
 //@   at call incrementalRead#1 before
 //@     assert [C18:the-main-dataset-is-read-last-from-the-same-continuation-with-no-dependency-active] cast(since, "*source.MultiDatasetContinuation").activeDS == "" && $arg1 == since && $arg2 == batchSize && $arg4 == dsOf(multiSource.DatasetManager, multiSource.DatasetName) && $arg0 == multiSource
 //@     assert [C18:dependencies-are-skipped-only-in-a-full-sync] !multiSource.isFullSync ==> depsDoneG == len(multiSource.Dependencies)
@@ -330,6 +336,7 @@ package source
 //@   loop 1
 //@     invariant -1 <= $i && $i < len(multiSource.Dependencies) && depsDoneG == $i + 1 && multiSource.changesCache != nil && multiSource.Store != nil
 //@     invariant [C18:dependencies-are-processed-only-outside-a-full-sync] !multiSource.isFullSync
+//@     invariant !depFailedG
 //@   loop 2
 //@     invariant [C18:watermarks-replace-the-dependency-tokens-only-in-a-full-sync] multiSource.isFullSync
 //@     invariant forall k string :: visited(k) ==> d.DependencyTokens != nil && has(d.DependencyTokens, k)
